@@ -27,7 +27,9 @@ def prop(pid, level, explanation, trusted=()):
       "unsigned subtraction on counters is proven non-negative; every count-min store is proven non-decreasing; the "
       "Python-level multiplicity is proven capped before it reaches a uint32 parameter; ceilings/table dtypes/kernel "
       "signatures agree; _find_base returns a base only after a residual check of its defining equation, raising ValueError otherwise "
-      "(findbase-post); the log merges store the ceiling when the decoded sum reaches max_count (logmerge-shape). "
+      "(findbase-post, which also proves the solver's unsigned subtractions non-negative at the constructors' calls); the log merges "
+      "store the ceiling when the decoded sum reaches max_count (logmerge-shape); every path of the heavy-hitter cell update is a match "
+      "(count = min(c + v, ceiling)), a replacement or a decrement (bm-table). "
       "Not decided: floating-point accuracy of that residual test and the float-derived re-encoding stores of _merge_log*.")
 def c18(ctx):
     F = facts_of(ctx)
@@ -40,6 +42,8 @@ def c18(ctx):
     RA.rule_logstep(ctx)
     RA.rule_findbase_post(ctx)
     RM.rule_logmerge_shape(ctx, rounding=False)       # C18: the reserved-range and ceiling branches of the log merge; rounding is C09's
+    with ctx.only({"bm-table"}):
+        RH.rule_bm_table(ctx)      # "a heavy-hitter count that fills its cells alone only grows": on a match the count is min(c + v, ceiling), on every path
     ctx.floor("findbase-post", 3)
     ctx.floor("range", 2 * 15 + 6, "15 decidable counter stores x2 bounds + unsigned subtractions")
     ctx.floor("mono", 6)
@@ -301,13 +305,19 @@ def c10(ctx):
       "(zip container whose end-of-central-directory record is written last; no allow_pickle, no mmap), known prefix-tolerant readers "
       "are violations and unknown readers make the check undecided; no exception handler on a load path swallows a failed read, and the "
       "loaders return only after all members were read; on the writer side each save() produces the file with exactly one np.savez call "
-      "and nothing re-opens or appends to it afterwards (a trailing zip comment would make truncated copies loadable). That every strict "
+      "and nothing re-opens or appends to it afterwards (a trailing zip comment would make truncated copies loadable); for 'the complete "
+      "file loads to the saved sketch' the writer/reader agreement clauses of persist (tables written, arguments written without loss and "
+      "restored into their own constructor positions). That every strict "
       "prefix of an np.savez archive is rejected is a property of NumPy/zipfile and is trusted.",
       trusted=("zip container semantics: np.load of a strict prefix of an .npz raises",))
 def c20(ctx):
     RT.rule_reader_api(ctx)
     RT.rule_no_swallow(ctx)
     RT.rule_writer_api(ctx)
+    # "only the complete file loads, and it loads to the saved sketch": the tables and the constructor arguments are written without
+    # loss and handed back in their own positions (the writer/reader agreement clauses of persist)
+    with ctx.only({"lossless-args", "ctor-args", "persist-table"}):
+        RT.rule_persist(ctx)
     ctx.floor("writer-api", 4)
     ctx.floor("reader-api", 9)
     ctx.floor("no-swallow", 6)
@@ -569,6 +579,8 @@ def c08(ctx):
     RP.rule_spawn_pickle(ctx)
     RT.rule_attach_table(ctx)
     RT.rule_argsdict(ctx)          # workers and mergers rebuild their views from `.args`: it must record the constructor's own arguments
+    with ctx.only({"layout"}):
+        RT.rule_layout(ctx)        # workers fill their sketches through attached views: owner and attacher must lay the block out identically
     mk = RA.merge_kernels(F)
     RA.rule_sumcounters(ctx, [k for k in mk if F.param_for(k, "n_added_records")], rule="nrecs")
     RA.rule_cover(ctx, [k for k in mk if k.parallel])
